@@ -28,6 +28,13 @@ ops:  apply <fuel> F <shape>   → ok rep=<0|1> repd=<0|1> tot=<0|1> changed=<n>
           heap := <n> cell*   cell := A <arr> | D <slots> | F <slots> | O <class> <slots>   slots := <n> (<name> (i <int> | r <addr>))*
           → ok rep= changed= repafter= fresh= <n> <shape>*
       array F <arr> | arrayb <batch> F <arr>   → ok <arr>         (`Transform.apply` on a bare array)
+      applye <fuel> (n | k <int>) FE <shape>   the methods AS THE SOURCE STATES THEM (`coreMethods` / `coreHMethods`, what
+          the translated methods are proved equal to), error branches included: value level `vApply`, heap level
+          `hTransform` with the closure `_apply_batched(·, batch_size)`;  FE := tot F | dimsE <dims> |
+          tabE <n> (<arr> (o <arr> | x))*   (a measured `_apply` that raises on some arrays)
+          → ok changed=<n> intact=<0|1> agree=<0|1> <shape>  |  err <kind> heap=<kind> changed=<n> intact=<0|1>
+      wdims <dims> <arr>   `WithDims._apply` with every kind of `dims`  → ok <arr> | err <kind>
+          dims := l <n> <int>* | s <int> | m <n> <0|1>*
 -/
 import MenpoModel.Core.Codec
 import MenpoModel.Core.C02
@@ -37,6 +44,7 @@ import MenpoModel.Lemmas.C02Check
 import MenpoModel.Lemmas.C02CheckD
 import MenpoModel.Props.C02Seq
 import MenpoModel.Props.C02Total
+import MenpoModel.Core.C02SrcH
 
 namespace MenpoModel.Drive.C02
 open MenpoModel.Codec MenpoModel.C02
@@ -264,8 +272,76 @@ def runSeq (_k : Nat) (h : Heap) (env : List (Nat × Shape)) (calls : List Call)
   | .error e, _ => "err value " ++ reprStr e
   | _, .error e => "err heap " ++ reprStr e
 
+def pDims : P Dims := do
+  let t ← tok
+  match t with
+  | "l" => do let js ← pList pInt; pure (.list js)
+  | "s" => do let j ← pInt; pure (.single j)
+  | "m" => do let bs ← pList pNat; pure (.mask (bs.map fun b => b != 0))
+  | _ => failure
+
+def pFE : P Fn := do
+  let t ← tok
+  match t with
+  | "tot" => do let f ← pF; pure (okFn f)
+  | "dimsE" => do let d ← pDims; pure (withDimsE d)
+  | "tabE" => do
+    -- the table of what the real `_apply` does to each array it is handed: returns `o <arr>` or raises `x`
+    let tbl ← pList (do
+      let a ← pMat
+      let t ← tok
+      match t with
+      | "o" => do let b ← pMat; pure (a, (Except.ok b : Except Err Arr))
+      | "x" => pure (a, (Except.error Err.unknown : Except Err Arr))
+      | _ => failure)
+    pure fun a => (tbl.lookup a).getD (.ok a)
+  | _ => failure
+
+def pBatchI : P (Option Int) := do
+  let t ← tok
+  match t with
+  | "n" => pure none
+  | "k" => do let k ← pInt; pure (some k)
+  | _ => failure
+
+def fErr : Err → String
+  | .attr => "attr" | .fuel => "fuel" | .notImpl => "notImpl" | .unknown => "unknown" | .value => "value"
+  | .index => "index"
+
+/-- the methods as the source states them, with a closure that may raise -/
+def runApplyE (k : Nat) (ap : Fn) (b : Option Int) (s : Shape) : String :=
+  let (h, v) := build [] s
+  let vres := vApply coreMethods expectedDispatch k ap (.shape s) b
+  let hp := hTransform coreHMethods expectedDispatch k v (fun a => applyBatchedE ap b a) h
+  let h' := hp.1
+  let changed := (changedBelow h.length h h').length
+  let intact := (match readShape k h' v with
+    | some s0 => fShape s0 == fShape s
+    | none => false) && repDB h' s v
+  match vres, hp.2 with
+  | .ok (.shape sv), .ok v' =>
+    let agree := (match readShape k h' v' with
+      | some sh => fShape sh == fShape sv
+      | none => false) && repDB h' sv v'
+    s!"ok changed={changed} intact={b01 intact} agree={b01 agree} " ++ fShape sv
+  | .error e, .error e' => s!"err {fErr e} heap={fErr e'} changed={changed} intact={b01 intact}"
+  | .error e, .ok _ => s!"err {fErr e} heap=ok changed={changed} intact={b01 intact}"
+  | .ok _, .error e' => s!"err ok heap={fErr e'} changed={changed} intact={b01 intact}"
+  | .ok _, .ok _ => "err not-a-shape"
+
 def step (toks : List String) : String :=
   match toks with
+  | "applye" :: rest =>
+    match runP (do let k ← pNat; let b ← pBatchI; let f ← pFE; let s ← pShape; pure (k, b, f, s)) rest with
+    | none => "bad-op"
+    | some (k, b, f, s) => runApplyE k f b s
+  | "wdims" :: rest =>
+    match runP (do let d ← pDims; let a ← pMat; pure (d, a)) rest with
+    | none => "bad-op"
+    | some (d, a) =>
+      match withDimsE d a with
+      | .ok r => "ok " ++ fArr r
+      | .error e => "err " ++ fErr e
   | "apply" :: rest =>
     match runP (do let k ← pNat; let f ← pF; let s ← pShape; pure (k, f, s)) rest with
     | none => "bad-op"
